@@ -117,6 +117,9 @@ func runXferJob(t *testing.T, j *Job, r *evid.Run, oracle oracleFn) *JobRes {
 	out.Roles = dedup(root.Roles)
 	if rr, ok := root.Res.(*XferRes); ok && rr != nil {
 		out.RootOut = outcomeOf(rr, dst)
+		if sc.MetaOn {
+			out.RootOut = metaOutcome(rr)
+		}
 		out.Info = rr.Counts
 	}
 	out.Execs, out.Steps = e.Execs, e.Steps
